@@ -1024,3 +1024,65 @@ def src_(node):
         return ast.unparse(node)[:100]
     except Exception:          # noqa: BLE001
         return "<?>"
+
+
+def triangle_coverage_report(fi):
+    """[(inner For, ok, detail)] for every triangular loop pair `for i in range(.., N): for j in range(i | i+1, M)` that encloses a
+    symmetric matrix element store: the pair enumerates the whole (upper) triangle only if the inner loop runs to the end of the
+    index range the outer loop runs over -- M == N, or M == N + 1 for the strict form `range(N - 1)` / `range(i + 1, N)`.  A shorter
+    inner range (a "band") leaves entries of the matrix at their initial value."""
+    tm = terms_of(fi, max_depth=0)
+    c = cfg_of(fi)
+    seen = {}
+    for st in walk_local(fi.node):
+        if not isinstance(st, ast.Assign) or len(st.targets) != 1 or _index_pair(st.targets[0], tm) is None:
+            continue
+        tri = triangular_loops(st)
+        if tri is None:
+            continue
+        loops = [l for l in enclosing_loops(st) if isinstance(l, ast.For) and isinstance(l.target, ast.Name)]
+        outer = next(l for l in loops if l.target.id == tri[0])
+        inner = next(l for l in reversed(loops) if l.target.id == tri[1])
+        if id(inner) in seen:
+            continue
+        oi, ii = outer.iter, inner.iter
+        if not (isinstance(oi, ast.Call) and isinstance(oi.func, ast.Name) and oi.func.id == "range" and oi.args and not oi.keywords):
+            continue
+        o_stop = oi.args[0] if len(oi.args) == 1 else oi.args[1]
+        i_stop = ii.args[1]
+        strict = isinstance(ii.args[0], ast.BinOp)
+        on, inn = c.node_of(outer), c.node_of(inner)
+        to = resolve_locals(fi, tm.term(o_stop), on, tm) if on is not None else tm.term(o_stop)
+        ti = resolve_locals(fi, tm.term(i_stop), inn, tm) if inn is not None else tm.term(i_stop)
+        def array_len(e, t):
+            # len(M) of a local M that is bound once, to a numpy constructor: element stores into M do not change its length
+            if isinstance(e, ast.Call) and isinstance(e.func, ast.Name) and e.func.id == "len" and len(e.args) == 1 and isinstance(e.args[0], ast.Name):
+                b = tm.env.single(e.args[0].id)
+                if b is not None and b.kind == "assign" and b.value is not None:
+                    bn = c.node_of(b.stmt)
+                    inner_t = resolve_locals(fi, tm.term(b.value), bn, tm) if bn is not None else tm.term(b.value)
+                    return _len_of_fresh_array(("call", ("n", "len"), (inner_t,), ()))
+            return t
+        to, ti = array_len(o_stop, to), array_len(i_stop, ti)
+        to, ti = _len_of_fresh_array(to), _len_of_fresh_array(ti)
+        one = ("c", "1")
+        ok = to == ti or (strict and (to == ("op", "Sub", (ti, one)) or ("op", "Add", tuple(sorted((to, one), key=repr))) == ti
+                                      or ti == ("op", "Add", (to, one)) or ti == ("op", "Add", (one, to))))
+        seen[id(inner)] = (inner, ok, "outer range ends at %s, inner range at %s" % (show(to), show(ti)))
+    return list(seen.values())
+
+
+def _len_of_fresh_array(t):
+    """len(np.zeros((a, b))) -> a, len(np.zeros(a)) -> a (also empty / ones / full / eye / identity), applied bottom-up"""
+    if not isinstance(t, tuple):
+        return t
+    t = tuple(_len_of_fresh_array(x) for x in t)
+    if len(t) == 4 and t[0] == "call" and t[1] == ("n", "len") and len(t[2]) == 1:
+        a = t[2][0]
+        if isinstance(a, tuple) and len(a) == 4 and a[0] == "call" and isinstance(a[1], tuple) and a[1][0] == "a" and a[1][1] in (("n", "np"), ("n", "numpy")) \
+                and a[1][2] in ("zeros", "empty", "ones", "full", "eye", "identity") and a[2]:
+            shape = a[2][0]
+            if isinstance(shape, tuple) and shape and shape[0] == "tuple" and len(shape) > 1:
+                return shape[1]
+            return shape
+    return t
